@@ -644,6 +644,49 @@ def unfold_sumvar(a, ao, b, bo, m, n):
                   z3.Implies(n >= 0, _SUMVAR(a, ao, b, bo, m, n + 1) == _SUMVAR(a, ao, b, bo, m, n) + z3.Select(a, ao + n) * (d * d)))
 
 
+def bounded_sum_unfoldings(formulas, upto):
+    """instances of the recursive definitions of SUMARR/SUMPROD/SUMSTRIDE/SUMVAR/SUMSCALED at lengths 0..upto for every
+    application occurring in the formulas (bounded mode only)"""
+    seen, apps = set(), []
+
+    def walk(e):
+        if e.get_id() in seen:
+            return
+        seen.add(e.get_id())
+        if z3.is_quantifier(e):
+            walk(e.body())
+            return
+        if z3.is_app(e):
+            if e.decl().name() in ('SUMARR', 'SUMPROD', 'SUMSTRIDE', 'SUMVAR', 'SUMSCALED') and e.num_args() > 0:
+                apps.append(e)
+            for ch in e.children():
+                walk(ch)
+    for f in formulas:
+        walk(f)
+    out, done = [], set()
+    for e in apps:
+        a = e.children()[:-1]
+        if any(_has_var(x) for x in a):
+            continue
+        key = (e.decl().name(),) + tuple(x.get_id() for x in a)
+        if key in done:
+            continue
+        done.add(key)
+        un = {'SUMARR': unfold_sumarr, 'SUMPROD': unfold_sumprod, 'SUMSTRIDE': unfold_sumstride, 'SUMVAR': unfold_sumvar,
+              'SUMSCALED': unfold_sumscaled}[e.decl().name()]
+        for j in range(upto + 1):
+            out.append(un(*a, z3.IntVal(j)))
+    return out
+
+
+def _has_var(e):
+    if z3.is_var(e):
+        return True
+    if z3.is_quantifier(e):
+        return True
+    return any(_has_var(c) for c in e.children()) if z3.is_app(e) else False
+
+
 def algo_call(ex, n, st, name, argn):
     if name == 'transform':
         # unary std::transform over [first,last) into out: element values not modelled (havoc), extent checked
